@@ -1701,3 +1701,7 @@ mod tests {
         );
     }
 }
+
+#[cfg(feature = "pendulum_project_ntpd_rs_verif")]
+#[path = "/verif/hooks/ntp-proto/server.rs"]
+pub mod verif_hooks;
